@@ -8,7 +8,11 @@ import (
 	"context"
 	"errors"
 	"fmt"
+	"io"
+	"net"
+	"os"
 	"sync"
+	"sync/atomic"
 	"time"
 
 	goat "github.com/avos-io/goat"
@@ -73,6 +77,45 @@ func Filter(evs []Ev, conn string, dir int) []Ev {
 	return out
 }
 
+// FaultErrKinds are the error values a failing transport may plausibly return; injected faults use ErrInjected unless
+// SetFaultErr chose another one. io.EOF and friends matter because goat uses io.EOF as its own "clean end" signal.
+var FaultErrKinds = []string{"injected", "injected", "eof", "wrapped-eof", "unexpected-eof", "closed-pipe", "net-closed", "canceled", "deadline"}
+
+// FaultErr returns the error value for a kind of FaultErrKinds.
+func FaultErr(kind string) error {
+	switch kind {
+	case "eof":
+		return io.EOF
+	case "wrapped-eof":
+		return fmt.Errorf("read tcp 10.0.0.1:443: %w", io.EOF)
+	case "unexpected-eof":
+		return io.ErrUnexpectedEOF
+	case "closed-pipe":
+		return io.ErrClosedPipe
+	case "net-closed":
+		return net.ErrClosed
+	case "canceled":
+		return context.Canceled
+	case "deadline":
+		return os.ErrDeadlineExceeded
+	}
+	return ErrInjected
+}
+
+// SetFaultErr chooses the error value of every fault injected on this end from now on (nil = ErrInjected).
+func (e *End) SetFaultErr(err error) {
+	e.mu.Lock()
+	e.faultErr = err
+	e.mu.Unlock()
+}
+
+func (e *End) faultErrLocked() error {
+	if e.faultErr != nil {
+		return e.faultErr
+	}
+	return ErrInjected
+}
+
 // ErrInjected is the error returned by injected transport faults.
 var ErrInjected = errors.New("verif: injected transport failure")
 
@@ -118,6 +161,8 @@ type End struct {
 	inbox   []*goat.Rpc
 	notify  chan struct{}
 	readErr error
+	// faultErr, if set, replaces ErrInjected as the value of injected faults
+	faultErr error
 	// failReadAfter >= 0: once that many envelopes have been returned by
 	// Read, every further Read fails.
 	failReadAfter int
@@ -136,6 +181,9 @@ type End struct {
 	failIf func(*goat.Rpc) bool
 	// IgnoreWriteCtx makes Write succeed even if ctx is already done.
 	IgnoreWriteCtx bool
+	// IgnoreReadCtx makes Read deaf to its context: it returns only with an envelope or a failure of the link.
+	// Set it before the end is handed to the code under test.
+	IgnoreReadCtx bool
 }
 
 // NewLink must be called inside the bubble that uses it.
@@ -144,7 +192,19 @@ func NewLink(name string, tap *Tap, serialize bool) *Link {
 	l.A = &End{link: l, dir: AtoB, notify: make(chan struct{}, 1), failReadAfter: -1, failWriteAt: -1}
 	l.B = &End{link: l, dir: BtoA, notify: make(chan struct{}, 1), failReadAfter: -1, failWriteAt: -1}
 	l.A.peer, l.B.peer = l.B, l.A
+	if k := defaultFaultKind.Load(); k != nil && *k != "" {
+		l.A.faultErr, l.B.faultErr = FaultErr(*k), FaultErr(*k)
+	}
 	return l
+}
+
+var defaultFaultKind atomic.Pointer[string]
+
+// UseFaultKind makes every Link created from now on report its injected faults with the error value of that kind
+// (kit.FaultErrKinds); the returned function restores the default. The kind is part of the case (a drawn value).
+func UseFaultKind(kind string) (restore func()) {
+	defaultFaultKind.Store(&kind)
+	return func() { defaultFaultKind.Store(nil) }
 }
 
 func (e *End) wake() {
@@ -165,7 +225,7 @@ func (e *End) Read(ctx context.Context) (*goat.Rpc, error) {
 			return nil, err
 		}
 		if e.failReadAfter >= 0 && e.reads >= e.failReadAfter {
-			e.readErr = ErrInjected
+			e.readErr = e.faultErrLocked()
 			e.mu.Unlock()
 			continue
 		}
@@ -181,6 +241,11 @@ func (e *End) Read(ctx context.Context) (*goat.Rpc, error) {
 			return r, nil
 		}
 		e.mu.Unlock()
+		if e.IgnoreReadCtx {
+			// a transport whose Read only ends when data arrives or the connection fails (net.Conn without deadlines)
+			<-e.notify
+			continue
+		}
 		select {
 		case <-e.notify:
 		case <-ctx.Done():
@@ -202,17 +267,18 @@ func (e *End) Write(ctx context.Context, rpc *goat.Rpc) error {
 	if e.writeErr != nil || (e.failWriteAt >= 0 && idx >= e.failWriteAt) {
 		err := e.writeErr
 		if err == nil {
-			err = ErrInjected
+			err = e.faultErrLocked()
 		}
 		e.mu.Unlock()
 		return err
 	}
 	hold := e.hold
 	failIf := e.failIf
+	ferr := e.faultErrLocked()
 	e.mu.Unlock()
 
 	if failIf != nil && failIf(rpc) {
-		return ErrInjected
+		return ferr
 	}
 	if hold != nil && hold(rpc) {
 		hw := &HeldWrite{End: e, Rpc: rpc, release: make(chan struct{})}
@@ -337,9 +403,11 @@ func (e *End) Inject(rpc *goat.Rpc) { _ = e.peer.Write(context.Background(), rpc
 
 // FailReads makes the current and all future Reads on this end fail.
 func (e *End) FailReads(err error) {
+	e.mu.Lock()
 	if err == nil {
-		err = ErrInjected
+		err = e.faultErrLocked()
 	}
+	e.mu.Unlock()
 	e.mu.Lock()
 	if e.readErr == nil {
 		e.readErr = err
@@ -358,9 +426,11 @@ func (e *End) FailReadAfter(k int) {
 
 // FailWrites makes all future Writes on this end fail.
 func (e *End) FailWrites(err error) {
+	e.mu.Lock()
 	if err == nil {
-		err = ErrInjected
+		err = e.faultErrLocked()
 	}
+	e.mu.Unlock()
 	e.mu.Lock()
 	e.writeErr = err
 	e.mu.Unlock()
